@@ -9,6 +9,7 @@ import time
 
 HERE = os.path.dirname(os.path.abspath(__file__))
 VERIF = os.path.dirname(HERE)
+OUTROOT = os.environ.get('VERIF_OUT') or VERIF      # self-tests redirect findings / evidence of scratch runs
 sys.path.insert(0, HERE)
 
 from mirlib import Facts, strip_generics          # noqa: E402
@@ -106,10 +107,14 @@ class Check:
         self.functions = set()
         self.extra = {}
         self._ob_sites = set()
+        self.profile = 'dev'
+        self.defer = False       # thorough tier: the caller merges the passes and emits once
+        self.result = None
 
     # ---------------------------------------------------------------- analysis
-    def load(self):
-        self.facts = extract_facts('dev')
+    def load(self, profile=None):
+        self.profile = profile or os.environ.get('VERIF_PROFILE', 'dev')
+        self.facts = extract_facts(self.profile)
         return self.facts
 
     def analyse(self, key, cfg=None, assume=None, tag=''):
@@ -188,10 +193,11 @@ class Check:
             if r['instances'] < r['floor']:
                 self.finding(name, '-', 'anchor-lost',
                              f"rule {name} matched {r['instances']} instance(s), expected at least {r['floor']} (kind=anchor-lost)")
-        outdir = os.path.join(VERIF, 'out', self.pid)
+        outdir = os.path.join(OUTROOT, 'out', self.pid)
         os.makedirs(outdir, exist_ok=True)
+        fprefix = 'finding-' if self.profile == 'dev' else f'finding-{self.profile}-'
         for fn in os.listdir(outdir):
-            if fn.startswith('finding-'):
+            if fn.startswith(fprefix):
                 os.unlink(os.path.join(outdir, fn))
         nviol = 0
         lines = []
@@ -201,7 +207,7 @@ class Check:
                 lines.append(f"KNOWN-FINDING: property={self.pid} {kf[0].get('what') or f['what']}")
                 continue
             nviol += 1
-            path = os.path.join(outdir, f"finding-{nviol}.json")
+            path = os.path.join(outdir, f"{fprefix}{nviol}.json")
             with open(path, 'w') as fh:
                 json.dump(f, fh, indent=1, default=str)
             lines.append(f"VIOLATION property={self.pid} replay={path}")
@@ -237,14 +243,21 @@ class Check:
             'wall_s': round(wall, 2),
             'violations': nviol,
         }
-        os.makedirs(os.path.join(VERIF, 'evidence'), exist_ok=True)
-        with open(os.path.join(VERIF, 'evidence', f"{self.pid}.json"), 'w') as fh:
-            json.dump(ev, fh, indent=1, default=str)
-        for l in lines:
-            print(l)
-        print(f"[{self.pid}] tier={self.tier} rules={len(self.rules)} obligations={self.obligations} discharged={self.discharged} "
-              f"declined={len(self.declined)} findings={len(self.findings)} violations={nviol} wall={wall:.1f}s")
+        cov['profile'] = self.profile
+        lines.append(f"[{self.pid}] tier={self.tier} profile={self.profile} rules={len(self.rules)} obligations={self.obligations} discharged={self.discharged} "
+                     f"declined={len(self.declined)} findings={len(self.findings)} violations={nviol} wall={wall:.1f}s")
+        self.result = (ev, lines, nviol)
+        if not self.defer:
+            emit(ev, lines)
         return 1 if nviol else 0
+
+
+def emit(ev, lines):
+    os.makedirs(os.path.join(OUTROOT, 'evidence'), exist_ok=True)
+    with open(os.path.join(OUTROOT, 'evidence', f"{ev['property_id']}.json"), 'w') as fh:
+        json.dump(ev, fh, indent=1, default=str)
+    for l in lines:
+        print(l)
 
 
 # ---------------------------------------------------------------------- shared configurations
